@@ -146,12 +146,23 @@ Definition validate_tr_rank (n : nat) (rank : rank_spec) : res (list nat) :=
 
 Definition rotate {A} (m : nat) (l : list A) : list A := skipn m l ++ firstn m l.
 
+(* rank = rank[mode:n_dim] + rank[: mode + 1]   (source after fix e10d22b): bond j of the rotated ring is
+   bond (mode + j) mod n of the request, the closing bond listed at both ends.
+   tr_rotate_rank_old is the rule before the fix, rank[mode:] + rank[:mode]: the (n+1)-entry list has
+   rank[0] = rank[n] twice, so for mode >= 2 every bond after the wrap-around was shifted by one
+   (kept only for the documented counterexample C09_tr_old_rotation_refuted). *)
+Definition tr_rotate_rank (n mode : nat) (rk : list nat) : list nat :=
+  firstn (n - mode) (skipn mode rk) ++ firstn (mode + 1) rk.
+Definition tr_rotate_rank_old (mode : nat) (rk : list nat) : list nat := rotate mode rk.
+Definition tr_rotate_rank_spec (n mode : nat) (rk : list nat) : list nat :=
+  map (fun j => nth ((mode + j) mod n) rk 0) (seq 0 (n + 1)).
+
 Definition tensor_ring (X : tensor F) (rank : rank_spec) (mode : nat) : res (list (tensor F)) :=
   let n := ndim X in
   rbind (validate_tr_rank n rank) (fun rk0 =>
     if negb (mode <? n) then Err else
     let Xp := if Nat.eqb mode 0 then X else transpose (f0 Op) (rotate mode (seq 0 n)) X in
-    let rk := if Nat.eqb mode 0 then rk0 else rotate mode rk0 in
+    let rk := if Nat.eqb mode 0 then rk0 else tr_rotate_rank n mode rk0 in
     let s0 := hd 0 (shape Xp) in
     let rest := tl (shape Xp) in
     let r0 := nth 0 rk 0 in
